@@ -247,7 +247,7 @@ def _gen_faults(run, rp, frng, key):
         elif what == "scale_rate":
             val = frng.choice([0.25, 0.5, 0.9, 1.0])
         else:
-            val = round(frng.uniform(0, 2), 3)
+            val = round(frng.uniform(0, 2), 3) if frng.random() < 0.85 else frng.choice([0.0, round(-frng.uniform(0.01, 0.5), 3)])
         ops.append({"k": "ext", "what": what, "station": sid, "charger": cid, "value": val})
     if rs.get("p_add_request") and frng.random() < rs["p_add_request"]:
         cells = sorted({r["o"] for r in run.spec["requests"]} | {r["d"] for r in run.spec["requests"]} | {v["cell"] for v in run.spec["vehicles"]})
@@ -255,7 +255,7 @@ def _gen_faults(run, rp, frng, key):
             n = run.scratch.get("ext_req_n", 0)
             run.scratch["ext_req_n"] = n + 1
             op = {"k": "ext", "what": "add_request", "id": "x%03d" % n, "o": frng.choice(cells), "d": frng.choice(cells), "value": frng.choice([0.0, 5.0])}
-            if run.spec.get("fleets"):
+            if run.spec.get("fleets") and not (rs.get("p_public_request") and frng.random() < rs["p_public_request"]):
                 op["fleet"] = frng.choice(sorted(run.spec["fleets"]))
             ops.append(op)
     if rs.get("buggify") and frng.random() < rs.get("p_fail", 0.3):
